@@ -446,6 +446,109 @@ def _judge(chk: Check, fi: FuncInfo, loop: ast.AST, cell: str, got: str,
                  .format(got, want), {"residual": show(res)[:500]})
 
 
+def d3_bookkeeping(chk: Check) -> None:
+    """Alias recognition depends on seen_anchors: every visited node's
+    anchor must be put on record (by its classification call) on every path
+    through its loop iteration, including the paths that emit a key match
+    and move on; and the expansion helper excludes aliases only when the
+    corresponding option does not ask for them."""
+    from sa.boolean import NotBoolean, truth_table
+    from sa.flow import Flow
+    prog = chk.prog
+    chk.rule("C07-D3c", "every node visited by a search / expansion loop is "
+             "classified (its anchor recorded in seen_anchors) on every "
+             "path through the iteration", floor=5)
+    chk.rule("C07-D3d", "an alias classification skips a node only under "
+             "`not include_<role>_aliases` of the flag handed to that "
+             "classification call", floor=2)
+    for name in ("search_for_paths", "yield_children"):
+        fi = fn(prog, name)
+        chk.analysed(fi)
+        loops = [n for n in walk_local(fi.node) if isinstance(n, ast.For)
+                 and any(isinstance(c, ast.Call) and
+                         src(c.func).endswith("search_anchor")
+                         for c in walk_local(n))]
+        for loop in loops:
+            tgt = loop.target
+            if isinstance(tgt, ast.Tuple):
+                subject = src(tgt.elts[-1])
+            else:
+                subject = src(tgt)
+
+            def transfer(stmt: ast.stmt, st, flow, subject=subject):
+                if isinstance(stmt, (ast.Assign, ast.Expr)):
+                    for c in ast.walk(stmt):
+                        if isinstance(c, ast.Call) and \
+                                src(c.func).endswith("search_anchor") and \
+                                c.args and src(c.args[0]) == subject:
+                            return [True]
+                return [st]
+
+            def branch(test: ast.AST, st, flow):
+                return [st], [st]
+            out = Flow(transfer, branch).run(loop.body, [False])
+            ends = list(out.fall) + list(out.continues) + list(out.breaks) \
+                + list(out.returns)
+            text = "{}: for {} in {}".format(name, src(tgt),
+                                             src(loop.iter)[:30])
+            if ends and all(ends):
+                chk.ok("C07-D3c", fi, loop, text,
+                       "`{}` classified on all {} end state(s)".format(
+                           subject, len(ends)))
+            else:
+                chk.fail("C07-D3c", fi, loop, text,
+                         "some path through the iteration leaves it without "
+                         "classifying `{}`: its anchor is not recorded, so "
+                         "a later alias of it is taken for the anchor "
+                         "itself".format(subject))
+    # D3d: exclusion tests of the expansion helper
+    fi = fn(prog, "yield_children")
+    flag_of: Dict[str, str] = {}
+    for n in walk_local(fi.node):
+        if isinstance(n, ast.Assign) and isinstance(n.value, ast.Call) and \
+                src(n.value.func).endswith("search_anchor"):
+            kws = {k.arg: src(k.value) for k in n.value.keywords}
+            if "include_aliases" in kws:
+                flag_of[src(n.targets[0])] = kws["include_aliases"]
+    for n in walk_local(fi.node):
+        if not isinstance(n, ast.If):
+            continue
+        members = [c for c in ast.walk(n.test)
+                   if isinstance(c, ast.Compare) and len(c.ops) == 1 and
+                   isinstance(c.ops[0], ast.In) and src(c.left) in flag_of]
+        if not members:
+            continue
+        atoms = sorted({src(c) for c in members} |
+                       {flag_of[src(c.left)] for c in members})
+        text = "if " + src(n.test)[:80]
+        try:
+            tt = truth_table(n.test, atoms)
+        except NotBoolean as ex:
+            chk.fail("C07-D3d", fi, n, text,
+                     "exclusion test is not a boolean form of its "
+                     "classification results and flags ({})".format(ex))
+            continue
+        problems = []
+        for c in members:
+            a, f = src(c), flag_of[src(c.left)]
+            others = [src(o) for o in members if src(o) != a]
+            for combo, val in tt.items():
+                env = dict(zip(atoms, combo))
+                if any(env[o] for o in others):
+                    continue
+                if env[a] and not env[f] and not val:
+                    problems.append("{} with {}=False is not skipped"
+                                    .format(a, f))
+                if env[f] and val:
+                    problems.append("skipped although {}=True".format(f))
+        if problems:
+            chk.fail("C07-D3d", fi, n, text, "; ".join(sorted(set(
+                problems))[:3]))
+        else:
+            chk.ok("C07-D3d", fi, n, text,
+                   "truth table over {} atoms".format(len(atoms)))
+
+
 # ---------------------------------------------------------------- D4 ------
 def d4_once(chk: Check) -> None:
     prog = chk.prog
@@ -497,4 +600,5 @@ def run(chk: Check) -> None:
     d2_inversion(chk)
     d3_search_anchor(chk)
     d3_consumer(chk)
+    d3_bookkeeping(chk)
     d4_once(chk)
